@@ -60,6 +60,16 @@ def signature_of(ops, r):
 # ---------------------------------------------------------------------------------------------
 # real-thread runs
 
+def spec_match(op, c, sp):
+    """the spec names the pointer a native call must get as object+offset; the offset is a layout fact the translator reads
+    from the struct.  When the translator does not know the layout the spec prints `?`: any pointer into an object is then
+    accepted at that place (the `ident` line still demands the SAME pointer in wait, signal and broadcast)"""
+    if "?" not in sp:
+        return c == sp
+    import re
+    return re.fullmatch(re.escape(sp).replace(r"\?", r"[CM]\+\d+"), c) is not None
+
+
 def rt_configs(rng, thorough):
     cfgs = []
     items = 6000 if thorough else 1200
@@ -72,6 +82,7 @@ def rt_configs(rng, thorough):
         cfgs.append(["pc", rng.randrange(1, 9), rng.randrange(1, 9), rng.choice([1, 2, 7]), rng.randrange(1, 2 * items), rng.randrange(2)])
     cfgs += [["ec", 8, 8, items], ["ec", 1, 8, items], ["ec", 8, 1, items], ["ec", rng.randrange(1, 9), rng.randrange(1, 9), rng.randrange(1, 2 * items)]]
     cfgs += [["gate", 8, 1000 if thorough else 100], ["gate", rng.randrange(2, 9), 50], ["gate", 1, 50]]
+    cfgs += [["gate", 32, 60 if thorough else 12, "u"], ["gate", 64, 30 if thorough else 6, "u"], ["gate", rng.randrange(2, 17), 40, "u"]]
     cfgs += [["trylock", 3000 if thorough else 300]]
     return [[str(x) for x in c] for c in cfgs]
 
@@ -171,7 +182,7 @@ def run(chk):
         chk.violation(str(e), "harness for C03 does not build against the current source", no_input=True, suffix="txt")
         exe = None
     if exe is not None and driver_ok:
-        fam = diffrun.Family("condvar", exe, timeout=10)   # a scripted call never blocks: 10 s means a hang
+        fam = diffrun.Family("condvar", exe, timeout=10, spec_match=spec_match)   # a scripted call never blocks: 10 s means a hang
         cases = pv.load_corpus("C03")
         ex = list(exhaustive())
         chk.cov["exhaustive_small_scope"] = {"return_codes": RCS, "cases": len(ex),
@@ -230,7 +241,7 @@ def replay(chk, path):
     if ops:
         pv.lake_build(["pvdriver"])
         exe = pv.build_harness("condvar", cfg, ["condvar.c"], repo_files=FILES, san="asan", link=["-Wl,--wrap=" + w for w in WRAPPED])
-        r = diffrun.judge(diffrun.Family("condvar", exe, timeout=10), ops)
+        r = diffrun.judge(diffrun.Family("condvar", exe, timeout=10, spec_match=spec_match), ops)
         print(r or "all answers agree")
         rc |= 1 if r else 0
     return rc
